@@ -286,6 +286,13 @@ def run_history(b, r, n_steps, out, hist_id):
         k, args = gen_cmd(r, prev)
         actor = gen_actor(r, k)
         if k == 'flushReload':
+            # known finding C16-capability-inverse-pair: with both '--foo' and '-foo' in a set, which of them survives
+            # a reload depends on the iteration order of the Python set (the model has one fixed order); such a
+            # state is not reloaded here (C16 replays the finding itself)
+            I16 = type('I', (), {'ircdb': ircdb})
+            if any(c16.inverse_pair(I16, u['caps']) for _, u in prev['users']) or \
+                    any(c16.inverse_pair(I16, c['caps']) for _, c in prev['chans']):
+                continue
             ircdb.users.flush(); ircdb.users.reload()
             ircdb.channels.flush(); ircdb.channels.reload()
             ircdb.ignores.flush(); ircdb.ignores.reload()
